@@ -87,6 +87,22 @@ func (e *specEnv) lookup(name string) (SVal, bool) {
 			}
 			return SVal{pv.Term, pv.Sort, pv.Type}, true
 		}
+		// captured variables of a closure: read through the capture pointer
+		for _, fv := range fr.fn.FreeVars {
+			if fv.Name() != name {
+				continue
+			}
+			pv, ok := fr.vals[fv]
+			if !ok {
+				break
+			}
+			if _, isPtr := fv.Type().Underlying().(*types.Pointer); isPtr {
+				l := e.r.asLoc(fr, e.state(), pv, fv, "false", fv.Pos())
+				v := e.r.load(e.state(), l, "false")
+				return SVal{v.Term, v.Sort, v.Type}, true
+			}
+			return SVal{pv.Term, pv.Sort, pv.Type}, true
+		}
 		if !e.ensMode {
 			want, ord := name, 0
 			if i := strings.Index(name, "#"); i > 0 {
@@ -570,7 +586,8 @@ func (e *specEnv) call(x *SExpr) SVal {
 		m, k := arg(0), arg(1)
 		dom, _, _, _ := e.r.mapHeaps(m.Type)
 		hd := e.r.heapGet(e.state(), dom)
-		return SVal{Term: fmt.Sprintf("(select (select %s %s) %s)", hd, m.Term, k.Term), Sort: "Bool"}
+		// a nil map has no keys (Go: lookup on a nil map yields the zero value, ok == false)
+		return SVal{Term: fmt.Sprintf("(and (not (= %s 0)) (select (select %s %s) %s))", m.Term, hd, m.Term, k.Term), Sort: "Bool"}
 	}
 	// fmt.Sprintf of a constant format and integer/string operands, as the engine models it
 	if strings.HasPrefix(name, "sprintf_") {
